@@ -41,9 +41,9 @@ M = [
      "                ExponentialSmoothingTracker(alpha=self._smoothing_alpha * (1 + 1e-9)))\n"),
     ("C01", "offset-on-one-loss-only", INC, "        return self._model_loss_tracker.get() + self._loss_direction\n",
      "        return self._model_loss_tracker.get() + self._loss_direction * 0.5\n"),
-    ("C01", "zero-contribution-skipped", INC, "                marginal_contributions[feature] = marginal_contribution\n",
-     "                if marginal_contribution != 0 or self.seen_samples % 5:\n"
-     "                    marginal_contributions[feature] = marginal_contribution\n"),
+    ("C01", "zero-contribution-skipped", INC,
+     "            self._importance_trackers.update(marginal_contributions)\n            variances = {\n                feature: (marginal_contributions[feature] - self.importance_values[feature])**2\n",
+     "            self._importance_trackers.update(\n                {f: v for f, v in marginal_contributions.items() if v != 0 or f in self.importance_values})\n            variances = {\n                feature: (marginal_contributions[feature] - self.importance_values.get(feature, 0.))**2\n"),
     # ---- C02 ---------------------------------------------------------------------------------------
     ("C02", "sign-flip", PFI, "pfi[feature] = avg_loss - original_loss", "pfi[feature] = original_loss - avg_loss"),
     ("C02", "first-two-samples-skipped", PFI, "        if self.seen_samples >= 1:\n", "        if self.seen_samples >= 2:\n"),
